@@ -1,5 +1,5 @@
 From Coq Require Import Extraction ExtrOcamlBasic.
 From F8 Require Import Base.Conv C15.Reader C15.Spec_C15.
 Extraction Language OCaml.
-Extraction "../ocaml/gen/C15/model.ml" keep_types run read_msg sock_read std_params fix42 len_limit max_width extract_element_orig
+Extraction "../ocaml/gen/C15/model.ml" keep_types run read_msg sock_read std_params fix42 len_limit max_width extract_element_orig run_orig
   c15_ok spec_parse spec_frame valid_frame bodylen_width.
